@@ -250,8 +250,6 @@ def run_scenario(sc):
                 return None
             if info["api"] == "ListOffsets" and f["kind"] == "error" and f.get("code") == 1:
                 return None
-            if f["kind"] in ("no_reply", "no_reply_before"):
-                counter.setdefault("stuck", []).append(info["cid"])
             return Fault(f["kind"], f.get("code", 0), f.get("delay", 0.0))
         c.fault_for = fault_for
         c.fault_counter = counter
@@ -390,11 +388,6 @@ def run_scenario(sc):
         # ---- quiet period: the fault plan is switched off, everything resumed, the application
         # just drains; delivery has to reach the end of every log
         net.fault_counter["on"] = False
-        # a connection whose request was swallowed (no_reply) stays blocked at the broker (requests
-        # of one connection are served in order): when faults cease such a connection is reset
-        for t in list(net.open_transports):
-            if t.cid in net.fault_counter.get("stuck", []):
-                t.server_drop()
         net.ev("quiet_begin")
         TASKS[asyncio.current_task()] = -1
         consumer.resume(*tps)
@@ -445,14 +438,6 @@ def run_scenario(sc):
             out["stopped"] = True
         except asyncio.TimeoutError:
             out["stopped"] = False
-        except asyncio.CancelledError:
-            # Fetcher.close() re-raises the cancellation of a fetch task that sits in its retry
-            # back-off (C19's business, reported); finish the shutdown by hand
-            out["stopped"] = "CancelledError"
-            try:
-                await consumer._client.close()
-            except Exception:  # noqa: BLE001
-                pass
         gt = {}
         for p in range(nparts):
             lg = net.log("t", p)
